@@ -237,19 +237,111 @@ impl<'a> Explorer<'a> {
     }
 }
 
+/// Chains of 1-5 open known-size masters, one of them with a 1-byte size field, around a payload whose length sweeps
+/// across the point where that field overflows: the headers of the masters still to be closed count too, so whether
+/// flush() / an End is rejected depends on content + pending headers. Rejected calls (premise decided by the writer
+/// itself) must leave no trace.
+fn size_window_sweep(ctx: &mut Ctx) {
+    let chain = [ID_ROOT, ID_M, ID_N, ID_K, ID_L];
+    let small_leaf = [NItem::Leaf(ID_U, Val::U(1)), NItem::Leaf(ID_MU, Val::U(1)), NItem::Leaf(ID_NU, Val::U(1)), NItem::Leaf(ID_KU, Val::U(1)), NItem::Leaf(ID_LB, Val::B(vec![1]))];
+    let mut k = 0u64;
+    for depth in 1..=5usize {
+        for wpos in 0..depth {
+            for placement in 0..2usize {
+                // 0: a Binary in Root right after its Start; 1: LB in L (needs the whole chain)
+                if placement == 1 && depth < 5 {
+                    continue;
+                }
+                for len in 80..=130usize {
+                    let mine = ctx.mine(k);
+                    k += 1;
+                    if !mine {
+                        continue;
+                    }
+                    let mut alpha: Vec<WCall> = Vec::new();
+                    for (i, id) in chain[..depth].iter().enumerate() {
+                        alpha.push(t(NItem::Start(*id), if i == wpos { WOpt::Width(1) } else { WOpt::Default }));
+                        if i == 0 && placement == 0 {
+                            alpha.push(t(NItem::Leaf(ID_B, Val::B(vec![0x5a; len])), WOpt::Default));
+                        }
+                    }
+                    if placement == 1 {
+                        alpha.push(t(NItem::Leaf(ID_LB, Val::B(vec![0x5a; len])), WOpt::Default));
+                    }
+                    let hist: Vec<usize> = (0..alpha.len()).collect();
+                    let fails: Vec<WCall> = vec![WCall::Flush, t(NItem::End(chain[depth - 1]), WOpt::Default), t(NItem::Full(ID_M, vec![NItem::Leaf(ID_U, Val::U(1))]), WOpt::Default)];
+                    let conts: Vec<Vec<WCall>> = vec![vec![], vec![t(small_leaf[depth - 1].clone(), WOpt::Default)], vec![t(NItem::End(chain[depth - 1]), WOpt::Default)], vec![t(NItem::Start(ID_EBML), WOpt::Default)], vec![WCall::Flush], vec![t(small_leaf[depth - 1].clone(), WOpt::Default), WCall::Flush]];
+                    for f in &fails {
+                        let (ins, _, _, _) = run_seq(&alpha, &hist, Some(f), &[]);
+                        ctx.transitions += hist.len() as u64 + 2;
+                        let err = match ins.unwrap() {
+                            Ok(()) => continue,
+                            Err(e) => e,
+                        };
+                        if err.is_io() {
+                            continue;
+                        }
+                        let kind = match (&err, f) {
+                            (WErr::TagSize(_), WCall::Flush) => "size-window/flush-rejected",
+                            (WErr::TagSize(_), _) => "size-window/end-rejected",
+                            (WErr::Panic(_), _) => "panic",
+                            _ => "size-window/other-rejection",
+                        };
+                        ctx.count(&format!("rejected:{}", kind), 1);
+                        for cont in &conts {
+                            let cont_refs: Vec<&WCall> = cont.iter().collect();
+                            let d = || format!("size window: history [{}] then REJECTED {} then [{}]", alpha.iter().map(|c| c.short()).collect::<Vec<_>>().join(", "), f.short(), cont.iter().map(|c| c.short()).collect::<Vec<_>>().join(", "));
+                            if !ctx.enter(&d) {
+                                continue;
+                            }
+                            ctx.nontrivial();
+                            let (_, sa, fa, oa) = run_seq(&alpha, &hist, None, &cont_refs);
+                            let (_, sb, fb, ob) = run_seq(&alpha, &hist, Some(f), &cont_refs);
+                            ctx.transitions += 2 * (hist.len() + cont.len() + 1) as u64 + 1;
+                            let mut bad: Option<(String, String)> = None;
+                            if let WErr::Panic(p) = &err {
+                                bad = Some(("writer/panic".into(), p.clone()));
+                            }
+                            for (i, (a, b)) in sa.iter().zip(sb.iter()).enumerate() {
+                                if bad.is_some() {
+                                    break;
+                                }
+                                if !same_result(&a.result, &b.result) {
+                                    bad = Some((format!("{}/later-call-behaves-differently", kind), format!("later call #{} {}: without the rejected call {:?}, with it {:?}", i, cont[i].short(), a.result, b.result)));
+                                } else if a.dest != b.dest {
+                                    bad = Some((format!("{}/destination-differs-after-later-call", kind), format!("after later call #{} {}: {} vs {}", i, cont[i].short(), hex(&a.dest), hex(&b.dest))));
+                                }
+                            }
+                            if bad.is_none() && (!same_result(&fa, &fb) || oa != ob) {
+                                bad = Some((format!("{}/final-output-differs", kind), format!("into_inner {:?} {} vs {:?} {}", fa, hex(&oa), fb, hex(&ob))));
+                            }
+                            if let Some((key, det)) = bad {
+                                ctx.violation(&key, &d, &det);
+                            }
+                            ctx.validated += 1;
+                            ctx.leave();
+                        }
+                    }
+                }
+            }
+        }
+    }
+}
+
 pub fn run(ctx: &mut Ctx) {
     let rs = v_refspec();
     assert_spec_matches::<V>(&rs);
     let alpha = base_alphabet(!ctx.quick());
     let depth = ctx.tier.pick(4, 5);
     let cont_len = 2;
-    ctx.meta("rule", "cases: (valid history h, rejected call f, continuation s): h = every sequence of accepted calls up to the depth bound over the base alphabet (known/unknown/explicit-width Starts, Ends, leaves incl. a 127-byte string, a two-level Full, flush), f = every alphabet call and every failing-only call (too-small explicit width for leaf / Full / master End via content growth, unknown size on a non-master, malformed raw ids, End of a master that is not innermost or not open, Full with an invalid child at first / middle / nested / last position, Full with unknown size, misplaced tags) that the real writer rejects with a non-I/O error in the state after h, s = every sequence of <= 2 further alphabet calls (valid or not) followed by into_inner. Oracle (differential): h+f+s and h+s give the same Ok/Err kind for every call of s, identical destination bytes after each, identical into_inner result and bytes. Calls the writer accepts are outside the premise. Non-trivial: non-empty h and s.");
+    ctx.meta("rule", "cases: (valid history h, rejected call f, continuation s): h = every sequence of accepted calls up to the depth bound over the base alphabet (known/unknown/explicit-width Starts, Ends, leaves incl. a 127-byte string, a two-level Full, flush), f = every alphabet call and every failing-only call (too-small explicit width for leaf / Full / master End via content growth, unknown size on a non-master, malformed raw ids, End of a master that is not innermost or not open, Full with an invalid child at first / middle / nested / last position, Full with unknown size, misplaced tags) that the real writer rejects with a non-I/O error in the state after h, s = every sequence of <= 2 further alphabet calls (valid or not) followed by into_inner. Oracle (differential): h+f+s and h+s give the same Ok/Err kind for every call of s, identical destination bytes after each, identical into_inner result and bytes. Plus a size-window sweep: chains of 1-5 open known-size masters, each position in turn with a 1-byte size field, around a payload of every length 80-130 (so that content + the headers of the masters still to be closed crosses the 127-byte point at every alignment), f in {flush, End of the innermost master, a misplaced Full}, s in 6 continuations. Calls the writer accepts are outside the premise. Non-trivial: non-empty h and s.");
     ctx.meta("bounds", &format!("alphabet {} calls + {} failing-only calls, history depth {}, continuation length {}", alpha.len(), failing_only().len(), depth, cont_len));
     ctx.meta("assumptions", "error kinds are compared, not messages || I/O failures of the destination are outside the statement");
-    for c in ["rejected:tag-not-allowed-here", "rejected:end-of-non-innermost-master", "rejected:malformed-raw-id", "rejected:unknown-size-on-non-master", "rejected:width-too-small-leaf", "rejected:full-with-invalid-child-or-placement", "rejected:size-not-representable"] {
+    for c in ["rejected:tag-not-allowed-here", "rejected:end-of-non-innermost-master", "rejected:malformed-raw-id", "rejected:unknown-size-on-non-master", "rejected:width-too-small-leaf", "rejected:full-with-invalid-child-or-placement", "rejected:size-not-representable", "rejected:size-window/flush-rejected", "rejected:size-window/end-rejected"] {
         ctx.expect_nonzero(c);
     }
     let e = Explorer { alpha: &alpha, fails: failing_only().into_iter().map(|(k, c)| (k.to_string(), c)).collect(), depth, cont_len, level1: std::cell::Cell::new(0) };
     let mut hist = Vec::new();
     e.explore(ctx, &mut hist);
+    size_window_sweep(ctx);
 }
